@@ -7,7 +7,8 @@ from ak import short_uuid  # noqa: E402
 
 ID = "C20"
 LEVEL = "exploration"
-RULE = ("128-bit ints: boundaries 0,1,57^k-1,57^k,57^k+1 (k<=21), 2^128-1, 2^j, random; each is "
+RULE = ('[later additions: numbers whose 64-bit halves are boundary values; strings in quotes; strings judged while the caller handles another exception; uuid.UUID subclasses with their own __str__; threads start behind a barrier with a decode and six (thorough: ten) fresh interpreters per shard make their very first conversions concurrently] '
+        "128-bit ints: boundaries 0,1,57^k-1,57^k,57^k+1 (k<=21), 2^128-1, 2^j, random; each is "
         "encoded, decoded, compared with the harness' own base-57 little-endian model and "
         "collected for a collision test. Strings: wrong lengths 0-40, one foreign character at "
         "every position of a valid short string, 22-character strings denoting 2^128..57^22-1, "
